@@ -690,3 +690,54 @@ impl TTS {
         return TTS::merge_pauses_xml(str, &CONSECUTIVE_BREAKS, &PAUSE_AMOUNT, replacement);
     }
 }
+#[cfg(mathcat_verif)]
+/// Verification hooks (compiled only with `--cfg mathcat_verif`): thin wrappers that expose internal functions unchanged.
+pub mod verif {
+    use super::*;
+
+    fn engine(name: &str) -> TTS {
+        return match name {
+            "SSML" => TTS::SSML,
+            "SAPI5" => TTS::SAPI5,
+            _ => TTS::None,
+        };
+    }
+
+    /// The start (or end) string that `engine` writes for `command` with the given value.
+    /// `kind` is "num", "str" or "pron" (for "pron" `value` is text, ipa, sapi5 separated by U+0001).
+    pub fn tag(engine_name: &str, command: &str, kind: &str, value: &str, is_start: bool) -> String {
+        let prefs = PreferenceManager::get();
+        let prefs = prefs.borrow();
+        let command = TTSCommand::from_str(command).unwrap();
+        let value = match kind {
+            "num" => TTSCommandValue::Number(value.parse::<f64>().unwrap()),
+            "pron" => {
+                let parts: Vec<&str> = value.split('\u{1}').collect();
+                TTSCommandValue::Pronounce(Box::new(Pronounce{
+                    text: parts.first().unwrap_or(&"").to_string(),
+                    ipa: parts.get(1).unwrap_or(&"").to_string(),
+                    sapi5: parts.get(2).unwrap_or(&"").to_string(),
+                    eloquence: "".to_string(),
+                }))
+            },
+            _ => TTSCommandValue::String(value.to_string()),
+        };
+        let rule = TTSCommandRule::new(command, value, ReplacementArray::build_empty());
+        let tts = engine(engine_name);
+        return match tts {
+            TTS::None  => tts.get_string_none(&rule, &prefs, is_start),
+            TTS::SSML  => tts.get_string_ssml(&rule, &prefs, is_start),
+            TTS::SAPI5 => tts.get_string_sapi5(&rule, &prefs, is_start),
+        };
+    }
+
+    pub fn merge_pauses(engine_name: &str, text: &str) -> String {
+        return engine(engine_name).merge_pauses(text);
+    }
+
+    pub fn auto_pause(engine_name: &str, before: &str, after: &str) -> String {
+        let prefs = PreferenceManager::get();
+        let prefs = prefs.borrow();
+        return engine(engine_name).compute_auto_pause(&prefs, before, after);
+    }
+}
